@@ -296,6 +296,16 @@ func runC01(c *core.Case) {
 				}
 			}
 			for _, w := range writers {
+				if w.conn != nil && w.d.WALMode && c.Index%2 == 0 {
+					// the application ends properly: its last connection checkpoints
+					// and deletes the log and the shared-memory file
+					if r := w.conn.CloseLast(); r.Err != nil {
+						c.Logf("close of the last connection: %s: %v", r.ErrStep, r.Err)
+					} else {
+						c.Count("last_connection_closed_before_change", 1)
+					}
+					w.conn = nil
+				}
 				w.close()
 			}
 			writers = map[string]*dbWriter{}
